@@ -184,10 +184,12 @@ func c05Gen(tier string, rng *rand.Rand) []mCase {
 					if s.Ty == 8 {
 						n /= 2
 					}
+					seen := map[int]bool{n: true}
 					for _, k := range []int{n - 1, 1, n / 2, n + 1} {
-						if k < 0 || k == n || (k == 1 && n < 3) || (k == n/2 && (n < 4 || n/2 == 1)) {
+						if k < 0 || seen[k] {
 							continue
 						}
+						seen[k] = true
 						nb := append(append(append([]byte(nil), b.bytes[:cf.Start]...), mkCount(k)...), b.bytes[cf.End:]...)
 						cs = append(cs, mkS(b, "near-count", fmt.Sprintf("count of wire type %d at %d := %d (elements present: %d)", s.Ty, cf.Start, k, n), nb))
 					}
